@@ -99,7 +99,29 @@ func (vc *VC) zeroStructElemsDeep(st *State, et types.Type, arr Term) {
 				nh, p.member("o"), z, h, nh))
 		})
 		if !okk {
-			vc.unsupportedf("make of slice of structs with array-typed field")
+			// array-typed fields are sub-objects sub.T.f(o) whose elements live in elems:E
+			s := structOf(p.t)
+			for i := 0; i < s.NumFields(); i++ {
+				ft := s.Field(i).Type()
+				if kindOf(ft) != KArray {
+					continue
+				}
+				if k := kindOf(ft.Underlying().(*types.Array).Elem()); k == KStruct || k == KSlice || k == KIface || k == KArray {
+					vc.unsupportedf("make of slice of structs with an array field of composite elements")
+					continue
+				}
+				name, srt, aet := vc.arrayComp(ft)
+				sub := "sub." + sanitize(typeKey(p.t)) + "." + s.Field(i).Name()
+				vc.subPtr(p.t, i, "0") // declare
+				ksub := fmt.Sprintf("(knd (%s 0))", sub)
+				h := vc.heapGet(st, name, srt)
+				nh := vc.heapHavoc(st, name)
+				z := zeroOfSort("(Array Int "+sortOfKind(kindOf(aet))+")", vc)
+				par := app(sub+".inv", "o")
+				mem := and(eq(app("knd", "o"), ksub), eq(app(sub, par), "o"), p.member(par))
+				vc.axiom(fmt.Sprintf("(forall ((o Int)) (! (= (select %s o) (ite %s %s (select %s o))) :pattern ((select %s o))))",
+					nh, mem, z, h, nh))
+			}
 		}
 	}
 }
